@@ -156,6 +156,8 @@ Definition be_et_go (t : table) : list rel -> list ent -> mask -> bool -> MW (li
         match tbl_colidx t c with
         | None => fail EMissingComp
         | Some i =>
+            if negb (ck_rel (nth i (t_kinds t) (Build_ckind false false true))) then fail ENotRelation
+            else
             match nth_error tg i with
             | None => fail EIndex
             | Some cur => if ent_eqb x cur then go rest tg cm changed
@@ -427,7 +429,9 @@ Qed.
 Lemma be_kq_et_go : forall Qv t rels tg cm ch, be_kq Qv (be_et_go t rels tg cm ch).
 Proof.
   intros Qv t rels. induction rels as [|[c x] rest IH]; intros tg cm ch; unfold be_et_go; fold (be_et_go t); [be_kq_tac|].
-  destruct (tbl_colidx t c); [|be_kq_tac]. destruct (nth_error tg n); [|be_kq_tac].
+  destruct (tbl_colidx t c); [|be_kq_tac].
+  destruct (negb (ck_rel (nth n (t_kinds t) (Build_ckind false false true)))); [be_kq_tac|].
+  destruct (nth_error tg n); [|be_kq_tac].
   destruct (ent_eqb x e); apply IH.
 Qed.
 #[export] Hint Resolve be_kq_etu_go be_kq_et_go : be_kq.
@@ -1461,7 +1465,9 @@ Qed.
 Lemma be_hom_et_go : forall t rels tg cm ch, be_hom eq (be_et_go t rels tg cm ch) (be_et_go t rels tg cm ch).
 Proof.
   intros t rels. induction rels as [|[c x] rest IH]; intros tg cm ch; unfold be_et_go; fold (be_et_go t); [be_hom_tac|].
-  destruct (tbl_colidx t c); [|be_hom_tac]. destruct (nth_error tg n); [|be_hom_tac].
+  destruct (tbl_colidx t c); [|be_hom_tac].
+  destruct (negb (ck_rel (nth n (t_kinds t) (Build_ckind false false true)))); [be_hom_tac|].
+  destruct (nth_error tg n); [|be_hom_tac].
   destruct (ent_eqb x e); apply IH.
 Qed.
 #[export] Hint Resolve be_hom_etu_go be_hom_et_go : be_hom.
